@@ -406,7 +406,9 @@ main(int argc, char *argv[])
 			       hx_npolls, hx_nblocked, hx_ip ? hx_ip : "(never started)", hx_exited, hx_fed);
 			_exit(st);
 		}
-		alarm(60);
+		/* a schedule takes milliseconds; one that makes no end (a script blocked for
+		 * good because nobody reads its pipe) is killed and reported as a hang */
+		alarm(getenv("C13_CTL_TIMEOUT") ? atoi(getenv("C13_CTL_TIMEOUT")) : 20);
 		while (waitpid(hx_kid, &st, 0) < 0 && errno == EINTR);
 		alarm(0);
 		hx_kid = 0;
